@@ -67,6 +67,9 @@ type Plan struct {
 
 var raceFuncRe = regexp.MustCompile(`^\s+(github\.com/avfs/avfs[^\s(]*(?:\([^)]*\))?[^\s(]*)\(`)
 
+// ParseRace is parseRace for drivers with their own race pass (C15).
+func ParseRace(txt string) []string { return parseRace(txt) }
+
 // parseRace extracts, for each report in txt, the first avfs function of each stack.
 func parseRace(txt string) []string {
 	var out []string
